@@ -76,6 +76,24 @@ def oracle_pairing(inp):
         return 'name does not end in Req/Rsp'
     if R.registry.get((cls.__netfn__, cls.__cmdid__, cls.__group_extension__)) is not cls:
         return 'id tuple maps to another class'
+    # the same through the registry's public functions (what the interfaces and the emulation use)
+    import pyipmi.msgs as MS
+    try:
+        got = MS.create_message(cls.__netfn__, cls.__cmdid__, cls.__group_extension__)
+        if type(got) is not cls:
+            return 'create_message(%d, %d, %r) gives a %s' % (cls.__netfn__, cls.__cmdid__, cls.__group_extension__,
+                                                             type(got).__name__)
+        by_name = (MS.create_request_by_name if name.endswith('Req') else MS.create_response_by_name)(name[:-3])
+        if type(by_name) is not cls:
+            return 'create_%s_by_name(%r) gives a %s' % ('request' if name.endswith('Req') else 'response', name[:-3],
+                                                         type(by_name).__name__)
+        if name.endswith('Req'):
+            rsp = MS.create_response_message(cls())
+            want = U.cls_of(rsps[0])
+            if type(rsp) is not want:
+                return 'create_response_message(%s()) gives a %s, the counterpart is %s' % (name, type(rsp).__name__, rsps[0])
+    except Exception as e:  # noqa
+        return 'the registry functions fail for %s: %s: %s' % (name, type(e).__name__, e)
     return None
 
 
